@@ -10,7 +10,7 @@ from vf.runner import Acc, filler
 PROPERTY = "C02"
 CONCUR_FILES = ('bits/utils.py', 'bits/ecmath.py', 'bits/pem.py')
 # (thread a, thread b), warm-up: indices into seq_ops() - the ordinary single-case checks run concurrently (vf/concur.py)
-CONCUR_SCEN = [((0, 4), (8,)), ((0, 0), (4,)), ((2, 3), (0,))]
+CONCUR_SCEN = [((0, 4), (8,)), ((0, 0), (4,)), ((2, 3), (0,)), ((0, 4, 8), ())]   # the last one: three threads
 LEVEL = "exploration"
 ENGINES = ["E2-small-curve", "E1-scope-enumerator"]
 RULE = ("layer A (small curves): ecmath.verify over EVERY (point P, digest z in [0,2n+1], r in [0,n+1] u {r+n aliases}, "
@@ -263,7 +263,7 @@ def jobs(tier, seed):
     from vf.runner import seq_jobs
     js += seq_jobs(4, curve=t43, weight=4)
     from vf.runner import concur_jobs
-    js += concur_jobs(len(CONCUR_SCEN), curve=t43)
+    js += concur_jobs(len(CONCUR_SCEN) - (1 if tier == "quick" else 0), curve=t43)
     for i in range(2):
         js.append({"name": f"concurrent/{i}", "part": "concur", "curve": t43, "idx": i, "weight": 10})
     return js
